@@ -760,13 +760,24 @@ class AST2SCFGTransformer:
         iter_assign = f"__scfg_iterator_{head_index}__"
         last_target_value = f"__scfg_iter_last_{head_index}__"
 
+        # A target that is not a plain name (tuple, list, starred, subscript
+        # or attribute) can neither be pre-set to None nor hold the sentinel:
+        # the next item is fetched into a reserved variable and assigned to
+        # the target at the top of the loop body, which is what Python does.
+        # Nothing needs to be restored in the else clause then.
+        simple_target = isinstance(node.target, ast.Name)
+        iter_item = f"__scfg_iter_item_{head_index}__"
+
         # Emit iterator setup to pre-header.
-        preheader_code = textwrap.dedent(
-            f"""
-            {iter_assign} = iter({iter_setup})
-            {target} = None
-        """
-        )
+        if simple_target:
+            preheader_code = textwrap.dedent(
+                f"""
+                {iter_assign} = iter({iter_setup})
+                {target} = None
+            """
+            )
+        else:
+            preheader_code = f"{iter_assign} = iter({iter_setup})"
         self.codegen(ast.parse(preheader_code).body)
 
         # Point the current_block to header block.
@@ -779,13 +790,21 @@ class AST2SCFGTransformer:
         # should continue.  The '__scfg__sentinel__' is an singleton style
         # marker, so it need not be versioned.
 
-        header_code = textwrap.dedent(
-            f"""
-            {last_target_value} = {target}
-            {target} = next({iter_assign}, "__scfg_sentinel__")
-            {target} != "__scfg_sentinel__"
-        """
-        )
+        if simple_target:
+            header_code = textwrap.dedent(
+                f"""
+                {last_target_value} = {target}
+                {target} = next({iter_assign}, "__scfg_sentinel__")
+                {target} != "__scfg_sentinel__"
+            """
+            )
+        else:
+            header_code = textwrap.dedent(
+                f"""
+                {iter_item} = next({iter_assign}, "__scfg_sentinel__")
+                {iter_item} != "__scfg_sentinel__"
+            """
+            )
         self.codegen(ast.parse(header_code).body)
         # Set the jump targets to be the body and the else block.
         self.current_block.set_jump_targets(body_index, else_index)
@@ -797,6 +816,8 @@ class AST2SCFGTransformer:
         self.loop_stack.append(LoopIndices(head_index, exit_index))
 
         # Recurs into the loop body (this may modify current_block).
+        if not simple_target:
+            self.codegen(ast.parse(f"{target} = {iter_item}").body)
         self.codegen(node.body)
         # After recursion, seal current block.
         self.seal_block(head_index)
@@ -812,12 +833,13 @@ class AST2SCFGTransformer:
 
         # Emit orelse instructions. Needs to be prefixed with an assignment
         # such that the for loop target can escape the scope of the loop.
-        else_code = textwrap.dedent(
-            f"""
-            {target} = {last_target_value}
-        """
-        )
-        self.codegen(ast.parse(else_code).body)
+        if simple_target:
+            else_code = textwrap.dedent(
+                f"""
+                {target} = {last_target_value}
+            """
+            )
+            self.codegen(ast.parse(else_code).body)
 
         # Recurs into the body of the else-branch.
         self.codegen(node.orelse)
